@@ -19,6 +19,8 @@ SCANNER_SEEDS = [
     "package p\n\nimport \"a\"\n\nfunc (", "...", "foo...", "...foo", "...\nfoo", "f(...)", "f(a...)", "{", "{ ...", "{ ... }", "type", "var", "const", "type T struct { ... }",
     "func f(a func(b func(c func(", "func (a.b) m()", "func f(a.B, ...) {}", "func f(x, y int, ...) {}", "func f(x, y, ...) {}", "for ... { ... }", "f(..., ...)", "a, ... := f(...)",
     "func f(...) (...) { ... }", "func (...) f(...)", "func (r ...) f()", "func f(func(...), ...)", "x := func(...) { ... }", "go func(...) { ... }(...)",
+    "func Map[T any](xs []T, f func(T) T) []T { ... }", "func Keys[M ~map[K]V, K comparable](m M) []K {\n ...\n}", "type L[T any] struct { ... }", "x[...]", "f[...](...)",
+    "func (l *L[T]) Push(v T, ...) {}", "func f[", "func f[T", "var x [...]int", "type F func(...) (...)", "switch ... { case ...: ... }", "select { ... }",
     ") ) )", "( ( (", "func ) (", "import ) \"x\"", "func f(a int) (b int, ...", "func f[T any](...) {}", "func f(a ...func(...))",
 ]
 
@@ -213,6 +215,9 @@ def main():
         for ch in vlib.field(m, "changes"):
             for side in ("minus", "plus"):
                 srcs.append(vlib.unhx(vlib.field(ch, side)[0][0]))
+    for sd in SCANNER_SEEDS:                      # every prefix of every stress seed
+        b = sd.encode()
+        srcs += [b[:i] for i in range(len(b))]
     base = list(srcs)
     n_mut = 6000 if thorough else 900
     for k in range(n_mut):
@@ -284,6 +289,11 @@ def main():
             body = "".join(pre + l + "\n" for l in s.split("\n"))
             other = {"-": "+", "+": "-", " ": "-"}[pre]
             add("scanner-seed", ("@@\n@@\n" + body + other + "y\n").encode(), some_files)
+    for s0 in SCANNER_SEEDS:
+        if "\n" in s0:
+            continue
+        for i in range(1, len(s0), 1 if thorough else 2):
+            add("scanner-seed-prefix", ("@@\n@@\n-" + s0[:i] + "\n+y\n").encode(), some_files)
     ill = []
     for k in range(len(ILL_TYPED) * (5 if thorough else 2)):
         p, f = ill_typed_case(rng, k)
